@@ -88,11 +88,65 @@ def call_name(call: ast.Call) -> Optional[str]:
     return None
 
 
+# call node id -> (call node, positional parameter names of the resolved repository callee); filled by callgraph.register_call_signatures
+CALL_PARAMS: dict = {}
+
+
+def call_params(call: ast.Call):
+    r = CALL_PARAMS.get(id(call))
+    return r[1] if r is not None and r[0] is call else None
+
+
 def kwarg(call: ast.Call, name: str) -> Optional[ast.AST]:
+    """the argument passed for parameter `name`: by keyword, or — when the callee's signature is known — positionally."""
     for kw in call.keywords:
         if kw.arg == name:
             return kw.value
+    ps = call_params(call)
+    if ps is not None and name in ps and ps.index(name) < len(call.args):
+        return call.args[ps.index(name)]
     return None
+
+
+def posarg(call: ast.Call, i: int) -> Optional[ast.AST]:
+    """the argument for the i-th positional parameter: positionally, or — when the callee's signature is known — by its keyword."""
+    if i < len(call.args):
+        return None if isinstance(call.args[i], ast.Starred) else call.args[i]
+    ps = call_params(call)
+    if ps is not None and i < len(ps):
+        for kw in call.keywords:
+            if kw.arg == ps[i]:
+                return kw.value
+    return None
+
+
+def bound_args(call: ast.Call):
+    """{parameter name: argument} for a call with a known signature (positional and keyword arguments alike); None otherwise."""
+    ps = call_params(call)
+    if ps is None:
+        return None
+    out = {}
+    for i, a in enumerate(call.args):
+        out[ps[i] if i < len(ps) else f"#{i}"] = a
+    for kw in call.keywords:
+        if kw.arg:
+            out[kw.arg] = kw.value
+    return out
+
+
+def call_arg_texts(call: ast.Call, n: Optional[int] = None):
+    """source texts of the first n (default: all supplied) arguments in parameter order, whichever way they were passed."""
+    ps = call_params(call)
+    if ps is None:
+        return [" ".join(ast.unparse(a).split()) for a in call.args]
+    b = bound_args(call)
+    out = []
+    for p_ in ps:
+        if p_ in b:
+            out.append(" ".join(ast.unparse(b[p_]).split()))
+        else:
+            break
+    return out if n is None else out[:n]
 
 
 def const_str(node: ast.AST) -> Optional[str]:
